@@ -76,6 +76,10 @@ OpsFor(f) ==
     \cup (IF "rec" \in OpKinds THEN {[k |-> "rec"]} ELSE {})
     \cup (IF "spin" \in OpKinds THEN {[k |-> "spin"]} ELSE {})
     \cup (IF "deferev" \in OpKinds THEN {[k |-> "deferev"]} ELSE {})
+    \* sv.V++ on a struct-typed local, and  defer evT("V", I, pc, sv)  with an INTERPRETED callee:
+    \* the argument is evaluated (copied) when the defer statement executes
+    \cup (IF "mut" \in OpKinds THEN {[k |-> "mut"]} ELSE {})
+    \cup (IF "deferval" \in OpKinds THEN {[k |-> "deferval"]} ELSE {})
     \cup (IF "bp" \in OpKinds THEN {[k |-> "bp"]} ELSE {})   \* _ = "break": a debugger breakpoint, no effect
     \cup (IF "set" \in OpKinds THEN {[k |-> "set", v |-> 5]} ELSE {})
     \cup (IF "ret" \in OpKinds THEN {[k |-> "ret", v |-> 6]} ELSE {})
@@ -92,10 +96,10 @@ OpsFor(f) ==
 \* kind "clo": the closure of `deferclo g`: g, runner, pc (1: call fg, 2: add), acc
 FnFrame(f, direct, runner, onret) ==
     [kind |-> "fn", fn |-> f, pc |-> 1, defs |-> <<>>, res |-> 0, direct |-> direct,
-     runner |-> runner, mode |-> "run", onret |-> onret, acc |-> 0, id |-> fid]
+     runner |-> runner, mode |-> "run", onret |-> onret, acc |-> 0, id |-> fid, sv |-> 0]
 CloFrame(g, runner) ==
     [kind |-> "clo", fn |-> g, pc |-> 1, defs |-> <<>>, res |-> 0, direct |-> FALSE,
-     runner |-> runner, mode |-> "run", onret |-> "drop", acc |-> 0, id |-> fid]
+     runner |-> runner, mode |-> "run", onret |-> "drop", acc |-> 0, id |-> fid, sv |-> 0]
 
 Top == st[Len(st)]
 SetTop(f) == [st EXCEPT ![Len(st)] = f]
@@ -197,6 +201,12 @@ ExecOp ==
                   [] op.k = "deferrec" ->
                        /\ st' = SetTop([T1 EXCEPT !.defs = Append(@, [t |-> "rec", v |-> op.v, f |-> f, pc |-> T.pc])])
                        /\ UNCHANGED <<pans, log, nev, fid, panicFun, disagree>>
+                  [] op.k = "mut" ->
+                       /\ st' = SetTop([T1 EXCEPT !.sv = @ + 1])
+                       /\ UNCHANGED <<pans, log, nev, fid, panicFun, disagree>>
+                  [] op.k = "deferval" ->
+                       /\ st' = SetTop([T1 EXCEPT !.defs = Append(@, [t |-> "val", f |-> f, pc |-> T.pc, v |-> T.sv])])
+                       /\ UNCHANGED <<pans, log, nev, fid, panicFun, disagree>>
                   [] op.k = "deferev" ->
                        /\ st' = SetTop([T1 EXCEPT !.defs = Append(@, [t |-> "ev", f |-> f, pc |-> T.pc])])
                        /\ UNCHANGED <<pans, log, nev, fid, panicFun, disagree>>
@@ -270,6 +280,12 @@ RunDeferred ==
                  \* a deferred compiled function: no interpreted frame. If the hook panics while
                  \* the deferring frame is being unwound, the new panic replaces (aborts) the old one
                  /\ EvCall2(<<"D", d.f, d.pc, IsDeferFrame(T), 0>>, SetTop(T1), pans,
+                            SetTop(T1), IF T.mode = "panic" THEN SubSeq(pans, 1, Len(pans) - 1) ELSE pans)
+                 /\ panicFun' = pf1
+                 /\ UNCHANGED <<fid, disagree>>
+            [] d.t = "val" ->
+                 \* deferred interpreted function evT(tag, f, pc, x): one frame, one ev() call, no defers
+                 /\ EvCall2(<<"V", d.f, d.pc, d.v, TRUE, 0>>, SetTop(T1), pans,
                             SetTop(T1), IF T.mode = "panic" THEN SubSeq(pans, 1, Len(pans) - 1) ELSE pans)
                  /\ panicFun' = pf1
                  /\ UNCHANGED <<fid, disagree>>
